@@ -232,7 +232,7 @@ theorem specU_succ {P : Prog} {rank : Nat → Nat} {f : Nat} (hacy : Acyclic P r
             { s3 with stack := s2.stack, events := (true, id) :: s3.events,
                       derived := ainsert s3.derived id (Rev.mk v fr3.maxTu s3.epoch fr3.rdeps.reverse) }
             id v R fr3 fr3.maxTu hinv hidB hev3 r3.inv hbig3 r3.reads hexact hstamps hmax (by have := r3.order; simpa using this) hmax
-            (fun r hr => by rw [hl] at hr; cases hr; exact ⟨hlt, Or.inr ⟨hdne, hC⟩⟩) rfl rfl rfl rfl
+            (fun r hr => by rw [hl] at hr; cases hr; exact ⟨hlt, Or.inr ⟨hdne, hC, fun e => hval e.symm⟩⟩) rfl rfl rfl rfl
             (fun fr hfr => hinv.stackB fr (by rw [← hstack2]; exact hfr))
           refine ⟨_, true, fr3.maxTu, Rev.mk v fr3.maxTu s3.epoch fr3.rdeps.reverse, ?_, hinvF, hevF, hstack2,
             alookup_ainsert_self _ _ _, rfl, hE, Nat.le_refl _, by rw [← hE]; exact hmax, ?_⟩
